@@ -36,7 +36,7 @@ ALLOWED_REWRITES = {
 
 # rules that live inside another property's check and are taken over with their own ids
 IMPORTS = {
-    "c01": ("R01.4",),
+    "c01": ("R01.2", "R01.4", "R01.5"),
     "c07": ("R07.6",),
     "c18": ("R18.1", "R18.2", "R18.3"),
     "c19": ("R19.2",),
@@ -114,6 +114,8 @@ def _table(ctx: Ctx):
         ("F22", lambda: classlevel.r_no_swallowed_exceptions(ctx, "F22")),
         ("F23", lambda: classlevel.r_init_order(ctx, "F23")),
         ("F24", lambda: classlevel.r_no_tag_ordering(ctx, "F24")),
+        ("F25", lambda: classlevel.r_self_attributes_defined(ctx, "F25")),
+        ("F26", lambda: classlevel.r_public_defaults(ctx, "F26")),
         ("R15.1", lambda: structure.r15_1_rewriters_stop_at_locked(ctx)),
     ]
 
